@@ -156,12 +156,13 @@ def tmpl_units(ctx, src):
     u = Unit(ctx, 'rw_tmpl')
     u.function(src, HH, r'const T& pget\(size_t offset, size_t size = sizeof\(T\)\) const', scope=SR,
                new_header='static inline const T* PGET(T)(const StringReader* self, size_t offset, size_t size)',
-               rules=[Rule('return *((const T*)(self->pgetv(offset, size)));',
-                           'return ((const T*)(%s(self, offset, size)));' % M('pgetv'), count=1)])
+               rules=[Rule(r'return \*\(\(const T\*\)\(self->pgetv\(([^;]*)\)\)\);',
+                           r'return ((const T*)(%s(self, \1)));' % M('pgetv'), count=1, regex=True)])
     u.function(src, HH, r'const T& get\(bool advance = true, size_t size = sizeof\(T\)\)', scope=SR,
                new_header='static inline const T* GET(T)(StringReader* self, bool advance, size_t size)',
-               rules=[Rule('const T& ret = self->pget<T>(self->offset, size);',
-                           'const T* ret = PGET(T)(self, self->offset, size); if (verif_exc) return 0;', count=1)])
+               rules=[Rule(r'const T& ret = self->pget<T>\(([^;]*)\);',
+                           lambda mo: 'const T* ret = PGET(T)(self, %s); if (verif_exc) return 0;'
+                           % (mo.group(1) if ',' in mo.group(1) else mo.group(1) + ', sizeof(T) /* default argument */'), count=1, regex=True)])
     # StringWriter
     u.function(src, HH, r'void put\(const T& v\)', scope=SW,
                new_header='static inline void SWPUT(T)(StringWriter* self, const T* v)',
@@ -481,6 +482,11 @@ def plan(ctx, pid):
                 g.engines = ['minisat', 'cadical']
                 g.stage1 = 30
             groups.append(g)
+    # the templates themselves with an explicit (symbolic) size argument
+    for fn in ('tmpl_get', 'tmpl_pget'):
+        groups.append(Group(name='StringReader.%s<T>(size)' % fn[5:], harness=HS, entry='h_' + fn, function='StringReader::%s<T> with explicit size' % fn[5:],
+                            enforce='StringReader_%s__int8_t' % fn[5:], defines=list(D),
+                            replay=Replay(driver='RW/reader.cc', mode=fn, sources=ALL_LIB, small_define='VERIF_SMALL')))
     if pid == 'C02':
         for fn in ['sub1', 'sub2', 'subx1', 'subx2', 'sub_bits1', 'sub_bits2', 'subx_bits1', 'subx_bits2']:
             G(fn)
